@@ -1001,15 +1001,20 @@ func (r *popRun) step(ctx context.Context, pop *genetics.Population, gen int, pr
 // generations since each species last improved.
 type hbSpec struct {
 	Sizes, Ages, Lags []int
+	Stagnant          bool // the population-level stagnation counter is far past DropOffAge+5 (delta coding at the next epoch)
 }
 
 var hbSpecs = map[string]hbSpec{
-	"hb1": {[]int{8, 8, 8}, []int{7, 7, 7}, []int{0, 2, 6}},
-	"hb2": {[]int{5, 1}, []int{11, 1}, []int{3, 0}},
-	"hb3": {[]int{1, 1, 4}, []int{20, 6, 1}, []int{16, 0, 0}},
-	"hb4": {[]int{2, 2, 2}, []int{6, 7, 11}, []int{0, 1, 2}},
-	"hb5": {[]int{10, 6, 4, 4}, []int{7, 8, 9, 12}, []int{1, 2, 3, 14}},
-	"hb6": {[]int{14, 7, 5, 4}, []int{7, 7, 7, 7}, []int{0, 0, 0, 0}},
+	"hb1": {Sizes: []int{8, 8, 8}, Ages: []int{7, 7, 7}, Lags: []int{0, 2, 6}},
+	"hb2": {Sizes: []int{5, 1}, Ages: []int{11, 1}, Lags: []int{3, 0}},
+	"hb3": {Sizes: []int{1, 1, 4}, Ages: []int{20, 6, 1}, Lags: []int{16, 0, 0}},
+	"hb4": {Sizes: []int{2, 2, 2}, Ages: []int{6, 7, 11}, Lags: []int{0, 1, 2}},
+	"hb5": {Sizes: []int{10, 6, 4, 4}, Ages: []int{7, 8, 9, 12}, Lags: []int{1, 2, 3, 14}},
+	"hb6": {Sizes: []int{14, 7, 5, 4}, Ages: []int{7, 7, 7, 7}, Lags: []int{0, 0, 0, 0}},
+	// stagnating populations of odd size: delta coding hands the whole population to the top one / two species
+	"hbd1": {Sizes: []int{7, 6}, Ages: []int{3, 4}, Lags: []int{0, 0}, Stagnant: true},
+	"hbd2": {Sizes: []int{6, 5, 4}, Ages: []int{7, 3, 2}, Lags: []int{1, 0, 0}, Stagnant: true},
+	"hbd3": {Sizes: []int{13}, Ages: []int{5}, Lags: []int{0}, Stagnant: true},
 }
 
 // hbGenome: the XOR start genome plus k hidden nodes, each splitting gene 2->4
@@ -1053,6 +1058,10 @@ func buildHandBuilt(sp hbSpec, opts *neat.Options) *genetics.Population {
 		pop.Species = append(pop.Species, s)
 	}
 	pop.LastSpecies = len(sp.Sizes)
+	if sp.Stagnant {
+		pop.EpochsHighestLastChanged = 1000
+		pop.HighestFitness = 1e12
+	}
 	pop.VSetCounters(int64(3+2*maxK), int32(5+maxK))
 	opts.PopSize = id
 	return pop
